@@ -32,6 +32,7 @@ type vfTWOpts struct {
 	PreSub     []int // users subscribed (default mode) during setup
 	DefAcs     string
 	Admin      []int // pre-subscribed users made administrators (want = given = JRWPAS) during setup
+	Former     []int // users who subscribed and unsubscribed again during setup (a deleted subscription row exists)
 }
 
 func vfBuildTW(o vfTWOpts) *vfTW {
@@ -70,6 +71,14 @@ func vfBuildTW(o vfTWOpts) *vfTW {
 	for _, i := range o.PreSub {
 		if code, _ := t.cl[i].Req(`{"sub":{"id":"$ID","topic":"%s"}}`, t.grp); code != 200 {
 			vsched.Fail("harness", fmt.Sprintf("presub u%d: %d", i, code))
+		}
+	}
+	for _, i := range o.Former {
+		if code, _ := t.cl[i].Req(`{"sub":{"id":"$ID","topic":"%s"}}`, t.grp); code != 200 {
+			vsched.Fail("harness", fmt.Sprintf("former member u%d sub: %d", i, code))
+		}
+		if code, _ := t.cl[i].Req(`{"leave":{"id":"$ID","topic":"%s","unsub":true}}`, t.grp); code != 200 {
+			vsched.Fail("harness", fmt.Sprintf("former member u%d unsub: %d", i, code))
 		}
 	}
 	for _, i := range o.Admin {
